@@ -125,6 +125,16 @@ def _innermost_repo_frame(tb):
     return fr or "?"
 
 
+REGRESS_DIR = os.path.join(VERIF, "regress")
+
+
+def regress_cases(pid):
+    d = os.path.join(REGRESS_DIR, pid)
+    if not os.path.isdir(d):
+        return []
+    return [os.path.join(d, f) for f in sorted(os.listdir(d)) if f.endswith(".json")]
+
+
 def _work(args):
     pid, run_seed, tier, idx = args
     faulthandler.enable()
@@ -132,8 +142,14 @@ def _work(args):
         mod = prop_module(pid)
         rng = random.Random(run_seed)
         t0 = time.time()
-        case = mod.gen_case(rng, tier, idx)
-        case["run_seed"] = run_seed
+        if isinstance(run_seed, str):
+            # committed regression case (explicit, no PRNG)
+            with open(run_seed) as f:
+                case = json.load(f)["case"]
+            case["run_seed"] = "regress:" + os.path.basename(run_seed)
+        else:
+            case = mod.gen_case(rng, tier, idx)
+            case["run_seed"] = run_seed
         res = exec_case(pid, case)
         wall = time.time() - t0
         dig = hashlib.sha256((canon(case) + "|" + canon({k: res.get(k) for k in ("status", "violations", "nontrivial", "faults", "probes", "days", "evals")})).encode()).hexdigest()[:20]
@@ -205,7 +221,8 @@ def minimise(pid, case, sig, budget_s=90):
 def write_replay(pid, case, violation, minimised_steps):
     os.makedirs(REPLAY_DIR, exist_ok=True)
     h = hashlib.sha256(violation["sig"].encode()).hexdigest()[:8]
-    path = os.path.join(REPLAY_DIR, f"{pid}-{case.get('run_seed', 0)}-{h}.json")
+    tag = str(case.get('run_seed', 0)).replace(":", "-").replace(".json", "").replace("/", "_")
+    path = os.path.join(REPLAY_DIR, f"{pid}-{tag}-{h}.json")
     with open(path, "w") as f:
         json.dump({"property": pid, "signature": violation["sig"], "message": violation["msg"],
                    "run_seed": case.get("run_seed"), "minimise_steps": minimised_steps,
@@ -246,9 +263,14 @@ def run_check(pid, tier="quick", seed=0, n=None, budget_s=None, workers=None, wr
     # fixed regression seeds first (index < n_fixed use seed 0 so that a regression found once stays found)
     n_fixed = min(n, getattr(mod, "N_FIXED", {}).get(tier, n // 2))
     tasks = []
+    reg = regress_cases(pid)
     for i in range(n):
         s = run_seed_of(0, i) if i < n_fixed else run_seed_of(seed, i)
         tasks.append((pid, s, tier, i))
+    for j, path in enumerate(reg):
+        tasks.append((pid, path, tier, n + j))
+    n_random = n
+    n = len(tasks)
 
     results = [None] * n
     harness_errors = []
@@ -256,7 +278,7 @@ def run_check(pid, tier="quick", seed=0, n=None, budget_s=None, workers=None, wr
     done_n = 0
     with cf.ProcessPoolExecutor(max_workers=workers, mp_context=ctx) as ex:
         futs = {}
-        it = iter(tasks)
+        it = iter(tasks[n_random:] + tasks[:n_random])  # committed regression cases first
         inflight = 0
         stop = False
         # bounded submission so that the wall budget can stop the batch
@@ -378,7 +400,8 @@ def run_check(pid, tier="quick", seed=0, n=None, budget_s=None, workers=None, wr
         "simulated_days": int(agg["days"]),
         "simulated_years": round(agg["days"] / 365.25, 1),
         "runs_per_hour": int(len(done) / max(wall, 1e-9) * 3600),
-        "seeds": {"VERIF_SEED": seed, "fixed_regression_runs": n_fixed, "seed_derived_runs": max(0, n - n_fixed),
+        "committed_regression_cases": len(reg),
+        "seeds": {"VERIF_SEED": seed, "fixed_regression_runs": n_fixed, "seed_derived_runs": max(0, n_random - n_fixed),
                   "derivation": "run_seed = VERIF_SEED*1000003 + index (fixed runs use VERIF_SEED=0)"},
         "fault_kinds_fired": agg["faults"],
         "rare_condition_probes": agg["probes"],
